@@ -725,12 +725,20 @@ fn probes(opts: &Opts, case: &Case, entry: &Entry, sink: &mut Sink) {
         sink.outcome(&format!("{}|{}|{}", case.id, real.short(), calls.len()));
         // (function, offset) multiset
         let mut counts: BTreeMap<(String, usize), usize> = BTreeMap::new();
+        // extern functions are keyed by the offset they were called at, check functions by their argument
+        let key = |f: &String, arg: &String| -> (String, usize) {
+            if f.contains("::chk") {
+                (format!("{f}({arg})"), 0)
+            } else {
+                (f.clone(), input.len().saturating_sub(arg.len()))
+            }
+        };
         for (f, rest) in &calls {
-            *counts.entry((f.clone(), input.len() - rest.len())).or_insert(0) += 1;
+            *counts.entry(key(f, rest)).or_insert(0) += 1;
         }
         let mut ref_counts: BTreeMap<(String, usize), usize> = BTreeMap::new();
         for (f, rest) in &r.hook_calls {
-            *ref_counts.entry((f.clone(), input.len() - rest.len())).or_insert(0) += 1;
+            *ref_counts.entry(key(f, rest)).or_insert(0) += 1;
         }
         let failed_memo_eval = r.rule_outcomes.iter().any(|((rule, _), outs)| {
             outs.iter().any(|(ok, _)| !*ok) && case.grammar.rule(rule).map(|r| r.flags().memoize).unwrap_or(false)
@@ -760,7 +768,7 @@ fn probes(opts: &Opts, case: &Case, entry: &Entry, sink: &mut Sink) {
             continue;
         }
         if all_memo {
-            let total: usize = counts.values().sum();
+            let total: usize = counts.iter().filter(|((f, _), _)| !f.contains("::chk")).map(|(_, n)| *n).sum();
             let bound = n_rules * (input.len() + 1);
             if total > bound {
                 sink.violation(case, input, "packrat-bound", format!("at most {bound} body evaluations"), format!("{total}"), json!({}));
@@ -989,7 +997,13 @@ fn trace_case(opts: &Opts, case: &Case, entry: &Entry, sink: &mut Sink) {
         // the built-in tracer on shorter inputs
         if case.note.contains("indented-all") || input.chars().count() + 2 <= max_len_of(&inputs) {
             user::reset(answers.clone());
+            if case.note.contains("nested-traced") {
+                // every user function runs a traced parse of the same input before it answers
+                crate::real::NESTED.with(|n| *n.borrow_mut() = Some((entry.run, input.clone())));
+                sink.bump("indented_runs_with_nested_traced_parses", 1);
+            }
             let ind = (entry.run)(input, Mode::Indented);
+            crate::real::NESTED.with(|n| *n.borrow_mut() = None);
             sink.bump("indented_runs", 1);
             if ind != plain {
                 sink.violation(case, input, "parse_with_trace-changes-result", plain.short(), ind.short(), json!({}));
